@@ -8,11 +8,13 @@ TmOps == {"add", "sub", "matmul", "mul_tm", "floordiv_tm", "l2g", "g2l", "distan
           "sub_array6", "tripleUnit", "mirror", "planeFromThreePoints", "getUnitVec", "angleBetween",
           \* neutral-element operands (identity fast paths must not hand back the operand itself)
           "add_zero", "sub_zero", "mul_one", "rmul_one", "div_one", "add_zero_array",
-          "tmctor_arr1"}                                \* the other copy-constructor form: a one-element array of a transform
+          "tmctor_arr1",
+          \* the same object on both sides of a binary helper / operator
+          "lookAt_self", "matmul_self", "add_self", "sub_self", "l2g_self", "g2l_self", "distance_self", "arcDistance_self"}                                \* the other copy-constructor form: a one-element array of a transform
 SwOps == {"add", "sub", "mul_scalar", "rmul_scalar", "div_scalar", "abs", "copy", "getData", "flatten", "reshape", "cross", "dot",
           "add_array6", "sub_array6", "rsub_array6", "add_scalar", "sub_scalar", "matmul_obj", "getitem_scalar",
           "radd_zero", "radd_zero_float", "sum_builtin", "add_zero", "sub_zero", "mul_one", "rmul_one", "div_one", "radd_scalar",
-          "rsub_scalar", "radd_array6", "add_zero_array"}
+          "rsub_scalar", "radd_array6", "add_zero_array", "add_self", "sub_self", "cross_self", "dot_self"}
 WrOps == SwOps \cup {"getForce", "getMoment"}
 MCOps == [f \in Fams |-> IF f = "tm" THEN TmOps ELSE IF f = "screw" THEN SwOps ELSE WrOps]
 MCRoutes == {"setitem", "arrays", "both"}
